@@ -88,7 +88,7 @@ func factsBroker(repo string, o *out) {
 					}
 					parts = append(parts, "("+strconv.FormatInt(e.k, 10)+", ["+strings.Join(bs, ", ")+"])")
 				}
-				o.def("supportedVersions", "List (Nat × List UInt8)", "["+strings.Join(parts, ", ")+"]")
+				_ = parts // emitted by facts_codec.go (same table, same name)
 				found = true
 			}
 		}
